@@ -162,6 +162,75 @@ def C09():
                 outside=["interleaved RLE order types", "segmentations other than the seven listed", "images larger than 18x2"])
 
 
+def C01():
+    jobs = [MirJob("c01_mir_cssp_order", "cssp_connect: credential accessors, the second gss_wrapex and the third Link::write are reachable only through the key-match edge of the BigUint comparison and never from the mismatch edge; polarity of the comparison; operands are (unsealed reply, certificate key + 1); the comparison is reached only after gss_unwrapex and read_ts_validate returned Ok; no write after a mismatch; Ok(()) only after the final write",
+                   mirjobs.cssp_order)]
+    return Prop("C01", [], jobs,
+                assumptions=["E2 admits every branch outcome (over-approximation): sound for must-precede claims",
+                             "the arithmetic of num-bigint (from_bytes_le, +, !=) is trusted: a Kani harness on the extracted condition (lowering L5, kept in vrun.py) ran CBMC out of 12 GB even for 1-byte operands (Vec<u32> digit vectors of symbolic length)"],
+                text="Ordering and gating of the credential release decided on the compiler's CFG of the real cssp_connect (z3 fixedpoint reachability + path enumeration), and the shape of the numeric acceptance test (BigUint(unsealed reply) != BigUint(certificate key) + BigUint([1]), continue edge = equal).",
+                note="NOT covered: TLS and 'the certificate the client saw' (OpenSSL); DER parsing of hostile TSRequests (yasna); rejection of forged/altered/reflected *sealed* replies by gss_unwrapex (CBMC runs out of memory on it, DESIGN G6) - only that its Ok result is required before the comparison; keys longer than 4 bytes.",
+                technique="MIR control-flow reachability in z3 (Datalog fixedpoint, BFS cross-check) and symbolic path enumeration of cssp_connect",
+                design_ref="DESIGN.md §4 C01",
+                outside=["TLS handshake / certificate binding", "gss_unwrapex rejecting tampered sealed replies (C16 gate G6 failed)", "yasna parsing of hostile replies", "num-bigint arithmetic itself"])
+
+
+def C02():
+    jobs = [
+        MirJob("c02_mir_x224_connect", "x224::Client::connect returns Ok only for a selected protocol in {SSL, Hybrid} that intersects the offered mask (SMT over all selected values and masks), only after exactly one start_ssl/start_nla call, with check_certificate passed unchanged",
+               mirjobs.x224_connect),
+        MirJob("c02_mir_nla_after_tls", "tpkt::Client::start_nla: cssp_connect (NTLM tokens, CredSSP credentials) is reachable only after Link::start_ssl returned Ok",
+               mirjobs.must_follow_ok(r"^tpkt::<impl at src/core/tpkt\.rs[^>]*>::start_nla$", r"Link::<S>::start_ssl$", r"\bcssp_connect", "cssp_connect")),
+        MirJob("c02_mir_client_info_after_x224", "Connector::connect: sec::connect (Client Info) and mcs connect are reachable only after x224::Client::connect returned Ok",
+               mirjobs.must_follow_ok(r"^client::<impl at src/core/client\.rs[^>]*>::connect$", r"x224::Client::<S>::connect$", r"^connect::<S>$|mcs::Client::<S>::connect$", "Client Info / MCS connect")),
+        MirJob("c02_mir_accept_invalid_certs", "Link::start_ssl hands exactly !check_certificate to danger_accept_invalid_certs", mirjobs.link_start_ssl),
+        Kani("c02_negotiation_values", "NegotiationType::try_from accepts exactly {1,2,3} of all u8; Protocols::try_from accepts exactly {0,1,2,8} of all u32", bounds={"type": "all u8", "protocol": "all u32"},
+             symbolic=["t: u8", "p: u32"], functions=["core::x224::NegotiationType::try_from", "core::x224::Protocols::try_from"], timeout=400, mem_gb=4),
+    ]
+    return Prop("C02", [("core/tpkt.rs", "tpkt.rs"), ("core/x224.rs", "x224.rs")], jobs, lowerings=["L2"],
+                assumptions=[S6, DEV, "E3: results of calls are unconstrained symbols; the selected protocol is the enum discriminant read from read_connection_confirm's Ok value"],
+                text="The selection-vs-offer and TLS-first rules decided on the MIR of the real x224::Client::connect: for every selected protocol value and every offered mask (SMT), an Ok return implies selected in {SSL, Hybrid}, selected & offered != 0 and a completed start_ssl/start_nla; credential-bearing calls are behind TLS by fixedpoint reachability in start_nla and Connector::connect.",
+                note="NOT covered: executing connect on wire bytes (the confirm is a nested component, DESIGN G1); certificate validation inside OpenSSL (only the flag handed to it).",
+                technique="MIR->SMT symbolic execution (z3 QF_BV, cvc5 cross-check) and Datalog reachability over x224/tpkt/client connect paths; Kani for the enum decoders",
+                design_ref="DESIGN.md §4 C02",
+                outside=["parsing the connection confirm from bytes", "OpenSSL certificate validation"])
+
+
+def C12():
+    jobs = [
+        MirJob("c12_mir_automaton", "global::Client::read: per state arm, the state advances only to the required successor and only when that arm's recogniser accepted; demand-active is answered by exactly one confirm-active then one finalization before the state store; a failed write keeps the state; no other arm writes; bitmaps (read_fast_path) only in Data",
+               mirjobs.global_read),
+        MirJob("c12_mir_deactivate", "read_data_pdu: the only state store is := DemandActivePDU and it is dominated by pdu_type == PdutypeDeactivateallpdu", mirjobs.global_deactivate),
+        MirJob("c12_mir_input_gating", "write_input_event sends only in the Data state and otherwise returns Err(InvalidAutomata) without building or writing anything; RdpClient::write refuses unsendable event kinds and makes exactly one write_input_event call per pointer/key event; try_write only maps the refusal to Ok",
+               mirjobs.input_gating),
+    ]
+    return Prop("C12", [], jobs,
+                assumptions=["the automaton is verified modulo its recognisers: that read_synchronize_pdu etc. return true exactly on their PDU is outside (size-dependent Component parses)",
+                             "E3 explores every path of each function with call results unconstrained"],
+                text="The activation automaton decided on the MIR of the real global::Client::read / read_data_pdu / write_input_event and RdpClient::write/try_write: every path of every state arm is enumerated symbolically and checked against the reference transition table; domination facts by z3 fixedpoint.",
+                note="NOT covered: the recognisers themselves (they parse size-dependent components), hence sequences of concrete PDUs are not executed; the property is decided per step from an arbitrary state, which covers histories of any length modulo the recognisers.",
+                technique="MIR->SMT path enumeration (z3) + Datalog reachability of the activation state machine, one inductive step from every state",
+                design_ref="DESIGN.md §4 C12",
+                outside=["read_*_pdu recognisers", "byte-level PDU sequences"])
+
+
+def C17():
+    jobs = [
+        MirJob("c17_mir_cssp_restricted", "cssp_connect: in restricted admin mode TSCredentials is built from three fresh empty vectors and no credential accessor is called; otherwise from get_domain_name/get_user_name/get_password in that order", mirjobs.cssp_restricted),
+        MirJob("c17_mir_connector", "Connector::connect: Client Info carries three empty strings exactly on the arm guarded by the restricted_admin_mode field (the same field handed to x224 connect), the configured fields otherwise; it is sent after x224 connect", mirjobs.connector_wiring),
+        MirJob("c17_mir_flags", "x224::Client::connect puts the restricted-admin request flag (1) in the negotiation request exactly when restricted_admin_mode is set; sec::rdp_infos sets INFO_AUTOLOGON (0x8) exactly when auto_logon is set; start_nla receives restricted || blank_creds", mirjobs.mode_flags),
+        Kani("c17_neg_req_bytes", "rdp_neg_req(type, protocols, flag) serialises to 01 <flag> 08 00 <protocols LE> for every flag byte and mask", bounds={"flag": "all u8", "protocols": "all u32"}, symbolic=["flag", "protocols"],
+             functions=["core::x224::rdp_neg_req", "Component::write"], timeout=600, mem_gb=6),
+    ]
+    return Prop("C17", [("core/tpkt.rs", "tpkt.rs"), ("core/x224.rs", "x224.rs")], jobs, lowerings=["L2"],
+                assumptions=[S1, S6, DEV, "by construction (signatures in the MIR): write_connection_request, mcs::Client::connect and create_negotiate_message take no credential parameter"], stubs=[S1],
+                text="Mode wiring decided on the MIR: which credential sources reach TSCredentials and Client Info under which mode flag (path enumeration with SMT feasibility), the request flag byte and the auto-logon bit as functions of their inputs (SMT), plus the negotiation request bytes by bounded model checking.",
+                note="NOT covered: 'the password appears nowhere else' over all emitted bytes of a real handshake (needs TLS and the emitters, which CBMC cannot run).",
+                technique="MIR->SMT symbolic execution (z3) of cssp_connect / Connector::connect / x224 connect / rdp_infos; Kani for the request bytes",
+                design_ref="DESIGN.md §4 C17",
+                outside=["whole-handshake secrecy", "NTLM token contents"])
+
+
 def C05():
     jobs = [Kani("c05_per_twin", "vacuity twin", expect="fail", fail_desc="twin reached", timeout=400, mem_gb=6),
             Kani("c05_mcs_twin", "vacuity twin", expect="fail", fail_desc="twin reached", timeout=400, mem_gb=6)]
@@ -247,9 +316,9 @@ def C18():
                 outside=["records with size-dependent or skippable fields (Component::read/write with MessageOption::Size/SkipField: CBMC does not finish)", "nested containers", "BER/DER (yasna) structures", "GCC conference blocks", "Version::from table (known finding D14 is checked by c18_mir_version_table)"])
 
 
-PROPS = {"C05": C05, "C06": C06, "C08": C08, "C09": C09, "C13": C13, "C14": C14, "C18": C18, "C19": C19}
+PROPS = {"C01": C01, "C02": C02, "C05": C05, "C06": C06, "C08": C08, "C09": C09, "C12": C12, "C13": C13, "C14": C14, "C17": C17, "C18": C18, "C19": C19}
 
-MIR_PROPS = ["C05", "C06", "C08", "C13", "C14"]
+MIR_PROPS = ["C01", "C02", "C05", "C06", "C08", "C12", "C13", "C14", "C17"]
 
 _TODO = "not claimed yet: machinery for this property is still being built (see DESIGN.md §4 for the plan)"
 NOT_APPLICABLE = {
@@ -259,5 +328,5 @@ NOT_APPLICABLE = {
     "C15": "CHALLENGE -> AUTHENTICATE needs read_target_info (size idiom) and a 25-field emitter with three to_vec calls; neither is executable by the solver-based engines here",
     "C20": "thread interleavings, select(2) and OpenSSL record buffering are concurrency + FFI; Kani does not model them and no sequential kernel implies the property",
 }
-for _p in ["C01", "C02", "C04", "C07", "C12", "C16", "C17"]:
+for _p in ["C04", "C07", "C16"]:
     NOT_APPLICABLE.setdefault(_p, _TODO)
